@@ -84,9 +84,22 @@ def classes():
         class StSub(falcon.HTTPStatus):
             pass
 
+        class BadStr(Exception):          # str() of it raises (a message template applied to mismatching args)
+            def __str__(self):
+                return '%d items in %s' % self.args
+
+        class NonStr(Exception):          # __str__ returns a non-string: str() raises TypeError
+            def __str__(self):
+                return 42
+
+        class BadRepr(Exception):         # repr() of it raises
+            def __repr__(self):
+                raise ValueError('no repr for you')
+
         _CLASSES = {'Exception': Exception, 'HTTPError': falcon.HTTPError, 'HTTPStatus': falcon.HTTPStatus,
                     'HTTPNotFound': falcon.HTTPNotFound, 'AppA': AppA, 'AppB': AppB, 'AppC': AppC, 'AppD': AppD,
-                    'AppX': AppX, 'StSub': StSub, 'HTTPRouteNotFound': falcon.HTTPRouteNotFound}
+                    'AppX': AppX, 'StSub': StSub, 'HTTPRouteNotFound': falcon.HTTPRouteNotFound,
+                    'BadStr': BadStr, 'NonStr': NonStr, 'BadRepr': BadRepr}
     return _CLASSES
 
 
@@ -170,6 +183,14 @@ def own_headers(name, idx):
     return h if idx % 2 else list(h.items())
 
 
+def safe_repr(x):
+    """repr() that survives objects whose __repr__ / __str__ raise."""
+    try:
+        return repr(x)
+    except Exception:
+        return '<%s instance, repr() raised>' % type(x).__name__
+
+
 def table_name(ex):
     """Name of the nearest class of the table in the linearisation of type(ex)."""
     names = {v: k for k, v in classes().items()}
@@ -199,6 +220,7 @@ class Recorder:
         self.fields_rng = fields_rng
         self.attr_seed = attr_seed
         self.wrong = []                 # harness-level anomalies (e.g. a sync twin called under ASGI)
+        self.drafts = {}                # handler call index -> (behaviour, attribute) of a draft written before raising
 
     def log(self, site, c, res=False, ok=False, x=0):
         self.calls.append({'site': site, 'c': c, 'act': 'ret', 'cls': '', 'res': bool(res), 'ok': bool(ok), 'x': x})
@@ -394,26 +416,35 @@ def _resource(rec, nb, na, asgi, style):
     return cls(), ('sfx' if style['suffix'] else None)
 
 
-def _handler(rec, h, beh, asgi):
-    """Error handler registered as registration number h (1..3 are the framework's defaults)."""
+DRAFT_ATTRS = ('text', 'data', 'media')
+
+
+def _handler(rec, o, beh, asgi):
+    """Error handler object number o (the number of the registration that first used it; 1..3 are the
+    framework's defaults).  The same object may be registered for several classes."""
     import falcon
 
+    def draft(resp, idx):
+        """Write the body 'h<idx>' through one of text / data / media; returns which."""
+        attr = (idx + rec.attr_seed + o) % 3
+        if attr == 0:
+            resp.text = 'h%d' % idx
+        elif attr == 1:
+            resp.data = b'h%d' % idx
+        else:
+            resp.content_type = 'application/json'
+            resp.media = {'h': idx}
+        return DRAFT_ATTRS[attr]
+
     def body(req, resp, ex, params):
-        idx = rec.log('handler', h, x=rec.excs.get(id(ex), 0))     # 0: not an exception the harness raised
+        idx = rec.log('handler', o, x=rec.excs.get(id(ex), 0))     # 0: not an exception the harness raised
         r = rec.calls[idx - 1]
         r['cls'] = table_name(ex)
         if beh == 'set':
-            resp.status = SET_STATUS_BASE + h
-            attr = (idx + rec.attr_seed + h) % 3
-            if attr == 0:
-                resp.text = 'h%d' % idx
-            elif attr == 1:
-                resp.data = b'h%d' % idx
-            else:
-                resp.content_type = 'application/json'
-                resp.media = {'h': idx}
+            resp.status = SET_STATUS_BASE + o
+            draft(resp, idx)
         elif beh == 'setbad':
-            resp.status = SET_STATUS_BASE + h
+            resp.status = SET_STATUS_BASE + o
             resp.content_type = 'application/json'
             resp.media = {'bad': idx}
         elif beh == 'noop':
@@ -424,9 +455,21 @@ def _handler(rec, h, beh, asgi):
         elif beh == 'status':
             r['act'] = 'raise'
             raise rec.new_exc('HTTPStatus', idx, HANDLER_ST_STATUS)
+        elif beh == 'draftst':          # drafts a body, then raises a text-less status (Pipeline!DraftStatus)
+            r['act'] = 'raise'
+            rec.drafts[idx] = (beh, draft(resp, idx))
+            if o % 2 == 0:
+                ex2 = falcon.HTTPFound('/moved/%d' % idx, dict(own_headers('HTTPStatus', idx)))
+            else:
+                ex2 = falcon.HTTPStatus(202, dict(own_headers('HTTPStatus', idx)))
+            raise ex2
+        elif beh == 'drafterr':         # drafts a body, then raises an HTTPError
+            r['act'] = 'raise'
+            rec.drafts[idx] = (beh, draft(resp, idx))
+            raise rec.new_exc('HTTPError', idx, HANDLER_ERR_STATUS)
         elif beh == 'other':
             r['act'] = 'raise'
-            raise RuntimeError('handler %d fails' % h)
+            raise RuntimeError('handler %d fails' % o)
         else:
             raise ValueError(beh)
 
@@ -484,6 +527,7 @@ class Session:
         self.cfg, self.asgi, self.variant = cfg, asgi, variant
         self.rec = rec = _Cur()
         self.nregs = 0
+        self.objs = {}
         twin = bool(variant & 1)
         comps = [_component(rec, j + 1, set(s), asgi, twin) for j, s in enumerate(cfg['shape'])]
         App = falcon.asgi.App if asgi else falcon.App
@@ -524,10 +568,28 @@ class Session:
             app.add_route('/other', _resource(rec, 0, 0, asgi, hook_style(0, 0, 0))[0])
 
     def add_handlers(self, regs):
+        """regs: [{cls, beh, obj}] - obj is the number (4, 5, ..) of the registration that first used the handler
+        object; a registration whose obj is its own number creates the object.  A run of registrations of one
+        object is made as one tuple registration when the variant says so."""
         cl = classes()
-        for r in regs:
-            self.nregs += 1
-            self.app.add_error_handler(cl[r['cls']], _handler(self.rec, 3 + self.nregs, r['beh'], self.asgi))
+        k = 0
+        while k < len(regs):
+            r = regs[k]
+            num = 3 + self.nregs + 1
+            o = r.get('obj', num)
+            if o not in self.objs:
+                if o != num:
+                    raise RuntimeError('registration %d refers to unknown handler object %d' % (num, o))
+                self.objs[o] = _handler(self.rec, o, r['beh'], self.asgi)
+            run = [r]
+            while self.variant & 16 and k + len(run) < len(regs) and regs[k + len(run)].get('obj') == o:
+                run.append(regs[k + len(run)])
+            if len(run) > 1:
+                self.app.add_error_handler(tuple(cl[x['cls']] for x in run), self.objs[o])
+            else:
+                self.app.add_error_handler(cl[r['cls']], self.objs[o])
+            self.nregs += len(run)
+            k += len(run)
         return self
 
     def request(self, plan, *, render_cls=None, lazy=None, accept=None, fields_rng=None, xml_safe=False, bad_cls=None):
@@ -978,7 +1040,7 @@ def observable(c):
     return c['site'] != 'notfound' and not (c['site'] == 'handler' and c['c'] <= 3)
 
 
-def expected_request(q):
+def expected_request(q, reg=None):
     """Project one request of a TLC session (spec numbering: every call) onto what an application can see.
     Returns (plan, render class or None, expected visible calls, expected response)."""
     obs, n = {}, 0
@@ -993,6 +1055,9 @@ def expected_request(q):
         if obs[k]:
             d = dict(c)
             d['x'] = obs.get(c['x'], 0) if c['site'] == 'handler' else 0
+            if c['site'] == 'handler' and reg is not None:
+                d['beh'] = reg[c['c'] - 1]['beh']
+                d['c'] = reg[c['c'] - 1]['obj']       # the application sees the handler object, not the registration
             calls.append(d)
     body = dict(q['body'])
     if body['k'] in ('mark', 'err', 'stext', 'hset', 'hbad'):
@@ -1010,7 +1075,7 @@ def expected_from_behaviour(b):
     """TLC session -> (assembly, all custom registrations, [(nregs, plan, render, calls, final) per request])."""
     cfg = {'shape': [sorted(s) for s in b['shape']], 'indep': b['indep'], 'target': b['target'], 'nb': b['nb'],
            'na': b['na']}
-    return cfg, b['reg'][3:], [(q['nregs'],) + expected_request(q) for q in b['reqs']]
+    return cfg, b['reg'][3:], [(q['nregs'],) + expected_request(q, b['reg']) for q in b['reqs']]
 
 
 def compare(exp_calls, exp_final, got_calls, got):
@@ -1089,9 +1154,21 @@ def faithful(rec, res, got):
     return []
 
 
-def report(ctx, own, clause, case, what, seen_other):
+def draft_signature(rec, clause):
+    """Narrow structural signature of a body mismatch after an error handler drafted a body and then raised
+    (None for anything else): which behaviour, through which response attribute the draft was written."""
+    if clause not in ('P4:body', 'P4:stale') or not rec.drafts:
+        return None
+    hs = [k for k, c in enumerate(rec.calls, 1) if c['site'] == 'handler']
+    if not hs or hs[-1] not in rec.drafts:
+        return None
+    beh, attr = rec.drafts[hs[-1]]
+    return {'clause': 'P4:body', 'handler': beh, 'draft_attr': attr}
+
+
+def report(ctx, own, clause, case, what, seen_other, signature=None):
     if clause.startswith(own):
-        ctx.violation(clause, case, what)
+        ctx.violation(clause, case, what, signature=signature)
     elif clause.startswith('D:'):
         ctx.detail(clause, case, what)
     elif clause.startswith('H:'):
@@ -1124,7 +1201,7 @@ def write_classes(ctx):
 PIPE_ACTIONS = ['Start', 'XReqCall', 'XRsrcCall', 'XBeforeCall', 'XResponder', 'XAfterCall', 'XRespCall', 'RenderCall',
                 'XRenderFail', 'ReqSkip', 'ReqDone', 'Route', 'RsrcSkip', 'RsrcDone', 'BeforeDone', 'NotFound',
                 'AfterDone', 'RespDone', 'HandleCall']
-WRONG = {'render_drops_body': 'DefaultRendering', 'mro_reversed': 'MostSpecificWins', 'first_reg_wins': 'LatestRegistrationWins',
+WRONG = {'status_keeps_draft': 'HandlerRaisedErrorIsRendered', 'render_drops_body': 'DefaultRendering', 'mro_reversed': 'MostSpecificWins', 'first_reg_wins': 'LatestRegistrationWins',
          'queue_before_call': 'ResponseOnce', 'resp_forward': 'ResponseBottomUp', 'no_reset': 'StaleBodyDiscarded'}
 
 
@@ -1174,7 +1251,8 @@ def replay_behaviours(ctx, own, behaviours, both, seen_other, label, rich=False)
                     break
                 diffs = compare(exp_calls, exp_final, rec.calls, got) + faithful(rec, res, got)
                 for clause, what in diffs:
-                    report(ctx, own, clause, full, 'request %d: %s' % (ri + 1, what), seen_other)
+                    report(ctx, own, clause, full, 'request %d: %s' % (ri + 1, what), seen_other,
+                           signature=draft_signature(rec, clause))
                 if any(c.startswith('P') for c, _ in diffs):
                     break
     ctx.traces_validated += n
@@ -1203,6 +1281,7 @@ def random_trace(rng, *, asgi, ncomp, maxhooks, regs, classes, maxfaults=5, rend
            'nb': rng.randint(0, maxhooks) if target == 'routed' else 0,
            'na': rng.randint(0, maxhooks) if target == 'routed' else 0}
     variant = rng.randrange(4096)
+    regs = [dict(r, obj=r.get('obj', 4 + j)) for j, r in enumerate(regs)]
     accept = rng.choice(ACCEPTS) if rich else None
     xml = bool(accept and accept.split(';')[0].endswith('xml'))
     cuts = sorted(rng.randint(0, len(regs)) for _ in range(nreqs - 1)) + [len(regs)]
@@ -1240,12 +1319,14 @@ def random_trace(rng, *, asgi, ncomp, maxhooks, regs, classes, maxfaults=5, rend
         case['reqs'].append({'nregs': nregs, 'plan': [(c['act'], c['cls']) for c in rec.calls if c['site'] in APP_SITES],
                              'render': next((c['cls'] for c in rec.calls if c['site'] == 'render'), None)})
         runs.append((rec, res, got))
+    case['_sigs'] = [draft_signature(rec, 'P4:body') for rec, _, _ in runs]
     return trace, case, runs
 
 
 C3REGS = [{'cls': 'AppB', 'beh': 'set'}, {'cls': 'AppC', 'beh': 'other'}, {'cls': 'AppD', 'beh': 'http'},
           {'cls': 'StSub', 'beh': 'noop'}]
-ALL_CLASSES = ['Exception', 'HTTPError', 'HTTPStatus', 'HTTPNotFound', 'AppA', 'AppB', 'AppC', 'AppD', 'AppX', 'StSub']
+ALL_CLASSES = ['Exception', 'HTTPError', 'HTTPStatus', 'HTTPNotFound', 'AppA', 'AppB', 'AppC', 'AppD', 'AppX', 'StSub',
+               'BadStr', 'NonStr', 'BadRepr']
 
 
 def judge_traces(ctx, own, env, items, seen_other):
@@ -1258,7 +1339,13 @@ def judge_traces(ctx, own, env, items, seen_other):
     for (t, c), v in zip(items, verdicts):
         if v != 'ok':
             clause = v.split('@')[0]
-            report(ctx, own, clause, dict(c, trace=t), 'trace rejected by PipelineTrace at event %s' % v, seen_other)
+            sig = None
+            if clause in ('P4:body', 'P4:stale') and c.get('_sigs'):
+                ri = int(v.split('@')[1]) // 1000
+                sig = c['_sigs'][ri] if ri < len(c['_sigs']) else None
+            c = {k: x for k, x in c.items() if k != '_sigs'}
+            report(ctx, own, clause, dict(c, trace=t), 'trace rejected by PipelineTrace at (request-1)*1000+event %s' % v,
+                   seen_other, signature=sig)
     return len(items)
 
 
@@ -1281,7 +1368,7 @@ def replay_request(ctx, case):
         print('request with %d custom registrations:' % q['nregs'])
         for c in rec.calls:
             print('  ', c)
-        print('  final:', got, 'exc:', res.exc, '\n  body:', res.body)
+        print('  final:', got, 'exc:', safe_repr(res.exc), '\n  body:', res.body)
         trace['reqs'].append({'nregs': q['nregs'], 'ev': rec.calls,
                               'final': {k: got[k] for k in ('escaped', 'status', 'body', 'hdrs', 'vary')}})
         for clause, what in faithful(rec, res, got):
